@@ -1267,13 +1267,15 @@ def replay(ctx, rp):
         return {"label": case["label"], "implementation": out, "oracle": bad, "fails": bool(bad)}
     if "call" in case:
         from qcelemental.molparse import reconcile_nucleus
-        kw, canon = eval(case["call"]), eval(case["canonical"])   # dict literals written by this module
+        import numpy as np
+        ns = {"np": np, "numpy": np}                               # the literals may spell values as numpy scalars
+        kw, canon = eval(case["call"], dict(ns)), eval(case["canonical"], dict(ns))   # dict literals written by this module
         ref = fresh_eval(canon)
         for step in case.get("prefix", []):
             if step == "cache_clear":
                 cache_clear()
             else:
-                _run_kw(eval(step))
+                _run_kw(eval(step, dict(ns)))
         got = _run_kw(kw)
         return {"call": case["call"], "reference": repr(ref), "implementation": repr(got), "fails": ref != got}
     return {"fails": False, "note": "unrecognised replay"}
